@@ -514,6 +514,8 @@ def impl_run(case):
                                'pollinterval': iv, 'cmds': [], 'names': names})
             rec.cmds[i] = judge_mods[-1]['cmds']
 
+        state = {'exited': False, 'started': None}
+
         # ---- instrumentation on the instances
         def fn_code(mobj, name):
             if name == 'doPoll':
@@ -533,7 +535,16 @@ def impl_run(case):
             mobj.callPollFunc = cpf
 
             def wip(_orig=mobj.writeInitParams, _i=i):
-                rec.begin(_i, 'i')
+                if state['started'] is not None:
+                    # behind the start-up round (the start-up callback has been called): `__pollThread` hands every module
+                    # its configured values once more — a call of its own ('w'), nothing follows it
+                    rec.begin(_i, 'w')
+                    try:
+                        return _orig()
+                    finally:
+                        if rec.cur is not None:
+                            rec.end()
+                rec.begin(_i, 'i')          # start-up round: the 'init' call ends with initialReads
                 return _orig()
             mobj.writeInitParams = wip
 
@@ -598,8 +609,6 @@ def impl_run(case):
         ev.clear = clear
 
         # ---- threads
-        state = {'exited': False, 'started': None}
-
         def started_cb():
             state['started'] = rec.now()
 
@@ -1054,6 +1063,22 @@ BOUNDARY = [
                  {'at': 12001, 'op': 'pi', 'm': 2, 'v': 1024}, {'at': 15001, 'op': 'fast', 'm': 2, 'flag': False, 'v': 256},
                  {'at': 20001, 'op': 'pi', 'm': 1, 'v': 10240}, {'at': 22001, 'op': 'trig', 'm': 1, 'imm': True}],
      'actions_note': 'hand written', 'T': 50 * TICKS, 'start': 1000},
+    # communication failure in initialReads of the first user of a shared io: the start-up round is broken off, the configured
+    # values of the modules behind it are written afterwards (one write is slow and ends with an arbitrary exception, one
+    # module is on the thread only for its write, which ends with a communication error), then everybody is polled
+    {'mods': [{'base': 'io', 'pollinterval': 2560, 'slow': 4096, 'params': [], 'enabled': True, 'doPoll': [[8, 'ok']], 'init': [[0, 'ok']]},
+              {'base': 'readable', 'has_io': True, 'pollinterval': 1024, 'slow': 2048,
+               'params': [{'name': 'a', 'kind': 'read', 'script': [[16, 'ok']]}],
+               'doPoll': [[16, 'ok']], 'doPollReads': [], 'init': [[16, 'comm']], 'initReads': [], 'enabled': True,
+               'written': True, 'wscript': [8, 'ok']},
+              {'base': 'readable', 'has_io': True, 'pollinterval': 512, 'slow': 2048,
+               'params': [{'name': 'a', 'kind': 'read', 'script': [[16, 'ok']]}],
+               'doPoll': [[16, 'ok']], 'doPollReads': [], 'init': [[0, 'ok']], 'initReads': [], 'enabled': True,
+               'written': True, 'wscript': [256, 'zd']},
+              {'base': 'module', 'has_io': True, 'pollinterval': 1024, 'slow': 2048, 'params': [],
+               'doPoll': [[0, 'ok']], 'doPollReads': [], 'init': [[0, 'ok']], 'initReads': [], 'enabled': False,
+               'written': True, 'wscript': [16, 'comm']}],
+     'actions': [{'at': 100, 'op': 'fast', 'm': 2, 'flag': True, 'v': 64}], 'T': 40 * TICKS, 'start': 1000},
 ]
 
 
@@ -1061,7 +1086,7 @@ BOUNDARY = [
 def classify_violation(obs, judge):
     if not judge['alive']:
         last = obs['calls'][-1] if obs['calls'] else None
-        where = 'start' if last is None else ('initialReads' if last['f'] == 'i' else ('doPoll' if last['f'] == 'd' else 'read'))
+        where = 'start' if last is None else {'i': 'initialReads', 'w': 'writeInitParams', 'd': 'doPoll'}.get(last['f'], 'read')
         return f'C13:thread-died:{where}'
     if not judge['nopoll']:
         return 'C13:nopoll-read'
@@ -1201,6 +1226,9 @@ def run(ctx):
         res.count('interval0' if zero_interval(case) else 'interval>0')
         res.count('failing-calls=%s' % ('0' if not fails else '1-9' if fails < 10 else '10+'))
         res.count('startup-abort' if model.get('aborted') else 'startup-complete')
+        late = [c for c in obs['calls'] if c['f'] == 'w']
+        if any(c['d'] > 0 for c in late):
+            res.count('late-write-takes-time')
         if any(m.get('doPollActs') for m in case['mods']):
             res.count('commands-from-own-doPoll')
         for m in case['mods']:
